@@ -126,6 +126,17 @@ func canary(b *Build, cfg string) error {
 	return nil
 }
 
+// soloRace: a solo reference run (one call, one caller) was reported by the
+// race detector: the library races with goroutines it started itself.
+type soloRace struct {
+	idx    int
+	report string
+}
+
+func (e *soloRace) Error() string {
+	return fmt.Sprintf("solo run of pool op %d reported a data race", e.idx)
+}
+
 // soloRefs executes every pool op as the first and only library call of a
 // fresh process and returns the reference file.
 func soloRefs(bin, poolFile string, n int, outFile string, env []string) error {
@@ -140,7 +151,27 @@ func soloRefs(bin, poolFile string, n int, outFile string, env []string) error {
 			defer wg.Done()
 			sem <- struct{}{}
 			defer func() { <-sem }()
-			r := runWorker(bin, []string{"solo", "-pool", poolFile, "-index", fmt.Sprint(i)}, env, 5*time.Minute)
+			var penv []string
+			pfx := ""
+			for _, e := range env {
+				if strings.HasPrefix(e, "GORACE=") && strings.Contains(e, "log_path=") {
+					// one log per solo process, so that a report can be attributed
+					pfx = e[strings.Index(e, "log_path=")+9:] + fmt.Sprintf("-%d", i)
+					e = e[:strings.Index(e, "log_path=")] + "log_path=" + pfx
+				}
+				penv = append(penv, e)
+			}
+			r := runWorker(bin, []string{"solo", "-pool", poolFile, "-index", fmt.Sprint(i)}, penv, 5*time.Minute)
+			if pfx != "" {
+				if rep := readRaceLog(pfx); rep != "" || r.exit == 66 {
+					mu.Lock()
+					if _, isRace := firstErr.(*soloRace); !isRace {
+						firstErr = &soloRace{i, rep}
+					}
+					mu.Unlock()
+					return
+				}
+			}
 			var ref map[string]interface{}
 			for _, line := range strings.Split(string(r.stdout), "\n") {
 				if m := decodeObj([]byte(line)); m != nil && m["t"] == "ref" {
@@ -228,8 +259,8 @@ func checkConc(prop, tier string, seed uint64, spec propSpec, start time.Time) i
 	for _, t := range targets {
 		rf := filepath.Join(b.Scratch, "refs-"+t.cfg.Name+".json")
 		if err := soloRefs(t.bin, poolFile, npool, rf, t.env(filepath.Join(b.Scratch, "solo-race-"+t.cfg.Name))); err != nil {
-			if rep := readRaceLog(filepath.Join(b.Scratch, "solo-race-"+t.cfg.Name)); rep != "" {
-				infraf("a solo reference run reported a data race (single goroutine!):\n%s", tail(rep, 30))
+			if sr, ok := err.(*soloRace); ok {
+				return reportSoloRace(b, t.bin, t.env, t.cfg.Name, poolFile, seed, sr, spec, tier, start)
 			}
 			infraf("%v", err)
 		}
@@ -458,6 +489,36 @@ func firstLine(s, contains string) string {
 	return ""
 }
 
+// reportSoloRace: one library call by one caller raced - with goroutines the
+// library itself started. That is a violation of C15 without any scheduling.
+func reportSoloRace(b *Build, bin string, envf func(string) []string, cfg, poolFile string, seed uint64, sr *soloRace, spec propSpec, tier string, start time.Time) int {
+	raw, _ := os.ReadFile(poolFile)
+	var ops []json.RawMessage
+	json.Unmarshal(raw, &ops)
+	dir := filepath.Join(verifDir(), "replays")
+	os.MkdirAll(dir, 0o755)
+	path := filepath.Join(dir, fmt.Sprintf("C15-%d-%s-solo-op%d.json", seed, cfg, sr.idx))
+	rec := map[string]interface{}{"t": "violation", "prop": "C15", "check_id": "conc-race", "engine": "conc", "config": cfg, "seed": seed, "worker": -1, "index": sr.idx,
+		"msg":         "data race inside a single library call (between goroutines the library started itself): " + raceSites(sr.report),
+		"race_report": normaliseRace(sr.report), "replay_cmd": "./check.sh replay " + path,
+		"episode": map[string]interface{}{"idx": 0, "family": "seq", "sseed": "1", "clients": [][]int{{sr.idx}}, "ops": map[string]interface{}{fmt.Sprint(sr.idx): ops[sr.idx]}}}
+	writeJSON(path, rec)
+	known := loadKnown()
+	if k := known.match(rec); k != nil {
+		fmt.Printf("KNOWN-FINDING: property=C15 %s\n", k.What)
+		return exitOK
+	}
+	fmt.Printf("VIOLATION property=C15 replay=%s\n  check=conc-race config=%s: %v\n", path, cfg, rec["msg"])
+	ev := newAgg().evidenceConc(tier, seed, spec, []string{cfg}, b, len(ops), time.Since(start).Seconds())
+	ev["violations"] = 1
+	cov := ev["coverage"].(map[string]interface{})
+	cov["evaluations"], cov["distinct_nontrivial"] = sr.idx+1, 2
+	cov["samples"] = []interface{}{rec["episode"]}
+	cov["note"] = "the run ended while computing solo references: a single call raced with goroutines started by the library itself"
+	writeEvidence("C15", ev)
+	return exitViol
+}
+
 // concDeterminism runs the first n episodes of worker 0 `runs` times under
 // different GOMAXPROCS and compares the traces line by line.
 func concDeterminism(b *Build, bin, poolFile, refFile string, seed uint64, n, runs int) error {
@@ -557,6 +618,9 @@ func replayEpisodeFile(b *Build, bin string, envf func(string) []string, path, c
 	json.Unmarshal(r.stdout, &ops)
 	refs := filepath.Join(tmp, "refs.json")
 	if err := soloRefs(bin, dense, len(ops), refs, envf(filepath.Join(tmp, "solo"))); err != nil {
+		if sr, ok := err.(*soloRace); ok && checkID == "conc-race" {
+			return true, sr.report
+		}
 		return false, err.Error()
 	}
 	pfx := filepath.Join(tmp, "race")
